@@ -234,7 +234,7 @@ Section Checkers.
         else if o_maxs o <? len then Err ESectionTooLarge
         else
           match cid_from_reader r1 with
-          | CfrEof => Err EEof
+          | CfrEof => Err EUnexpectedEof   (* the length prefix promised a section (fix ea7bf8c) *)
           | CfrErr _ => Err EOther
           | CfrOk n c p r2 =>
             if len <? n then Err EOther
@@ -242,6 +242,8 @@ Section Checkers.
               let bl := len - n in
               (* io.LimitReader: fewer bytes if the payload ends early; Seek when not validating *)
               let data := take bl r2 in
+              (* validating: the payload must hold the whole section (fix ea7bf8c) *)
+              if validate && (blen data <? bl) then Err EUnexpectedEof else
               let hashed :=
                 if validate then
                   match hash_matches hok c p data with
@@ -258,23 +260,28 @@ Section Checkers.
       end
     end.
 
-  Definition inspect_payload (o : ropts) (validate : bool) (dr : bytes) : res unit :=
+  (* isv2: the payload sits in a CARv2; its header must then say version 1 (fix 91b302e) *)
+  Definition inspect_payload (isv2 : bool) (o : ropts) (validate : bool) (dr : bytes) : res unit :=
     match read_header hdrdec (o_maxh o) dr with
     | Err e => Err e
-    | Ok (_, _, rest, _) => inspect_loop (S (length rest)) o validate rest
+    | Ok (_, v, rest, _) =>
+        if isv2 && negb (v =? 1) then Err EOther
+        else inspect_loop (S (length rest)) o validate rest
     end.
 
   (* NewReader(file, opts) then Inspect(validate): Ok tt = no error *)
   Definition inspect_check (o : ropts) (validate : bool) (file : bytes) : res unit :=
     match read_header hdrdec (o_maxh o) file with
     | Err e => Err e
-    | Ok (_, ver, _, _) =>
-      if ver =? 1 then inspect_payload o validate file
+    | Ok (_, ver, _, used) =>
+      if ver =? 1 then inspect_payload false o validate file
       else if ver =? 2 then
+        (* NewReader: the pragma must be exactly PragmaSize bytes (fix 66c8f5b) *)
+        if negb (used =? pragma_size) then Err EOther else
         match read_v2hdr (drop pragma_size file) with
         | Err e => Err e
         | Ok (h, _) =>
-          match inspect_payload o validate (take (h_dsize h) (drop (h_doff h) file)) with
+          match inspect_payload true o validate (take (h_dsize h) (drop (h_doff h) file)) with
           | Err e => Err e
           | Ok _ =>
             if has_index h then
